@@ -159,6 +159,11 @@ func ruleA14(r *Run, p *Prog, rule string, rels map[string]bool, want []string) 
 				if al, ok := x.X.(*ssa.Alloc); ok && strings.Contains(al.Comment, "complit") {
 					return
 				}
+				// a local value whose address never leaves the function (built by value, then
+				// returned or copied to its final place) is not shared yet
+				if al, ok := x.X.(*ssa.Alloc); ok && !al.Heap {
+					return
+				}
 				bad := usedAtomically(x)
 				r.Ob(rule, FnName(f)+"/"+fname(fv), p.Pos(x.Pos()), bad == nil, true, tern(bad == nil, "field "+fname(fv)+" accessed through sync/atomic", "field "+fname(fv)+" is read or written without sync/atomic ("+instrString(bad)+") although other code accesses it atomically: data race / lost updates"))
 			case *ssa.UnOp:
